@@ -32,6 +32,8 @@ Prepared(free, livepages, pages, mode) ==
 Avail(free, pages) == pages # {} /\ pages \subseteq free
 
 (* ---- images ---- *)
+\* (`off` identifies the file offset and is only compared for equality: a number of bytes in the bounded model, a pair
+\*  <<pages, remainder>> in the traces, where offsets of 2 GiB and more do not fit TLC's integers)
 HeaderFields == {"version", "hdrlen", "addr", "len", "abi"}
 Image(off, pg, rem, len, snap) == [off |-> off, pg |-> pg, rem |-> rem, len |-> len, snap |-> snap, bad |-> {}]
 Toggle(S, x) == IF x \in S THEN S \ {x} ELSE S \cup {x}
@@ -77,7 +79,7 @@ ModifyingOps == {"restrict", "insert_misc", "alloc_group", "insert_group", "free
 \* configuration calls are refused on every loaded topology
 ConfigOps == {"set_flags", "set_type_filter", "set_synthetic", "load"}
 \* consulting calls: "can be used just like any topology"
-ConsultOps == {"observe", "export_xml", "dup", "get_length", "check", "set_userdata", "bind_get", "abi_check", "refresh"}
+ConsultOps == {"observe", "export_xml", "dup", "get_length", "check", "set_userdata", "bind_get", "abi_check", "refresh", "reshare"}
 \* the documented exception, and the private topology infos
 SpecialOps == {"allow", "tinfo_add"}
 AllOps == ModifyingOps \cup ConfigOps \cup ConsultOps \cup SpecialOps
